@@ -10,6 +10,7 @@ import (
 	"strconv"
 	"strings"
 	"sync"
+	"time"
 
 	"verifharness/internal/corr"
 )
@@ -186,6 +187,28 @@ func setnxRound(g *gateway, key string, conns int) (concDesc, error) {
 	return d, nil
 }
 
+// prepKey leaves key absent in one of three ways: never written, written and
+// deleted (a tombstone is the newest version), written with an expiry in the past.
+func prepKey(g *gateway, key, pre string) error {
+	if pre != "deleted" && pre != "expired" {
+		return nil
+	}
+	cn, err := g.dial()
+	if err != nil {
+		return err
+	}
+	defer cn.close()
+	if pre == "deleted" {
+		if _, err := cn.do([]byte("SET"), []byte(key), []byte("41")); err != nil {
+			return err
+		}
+		_, err = cn.do([]byte("DEL"), []byte(key))
+		return err
+	}
+	_, err = cn.do([]byte("SET"), []byte(key), []byte("41"), []byte("EXAT"), []byte("1"))
+	return err
+}
+
 func concTerm(d concDesc) string {
 	if d.Kind == "incr" {
 		init, final := int64(0), int64(0)
@@ -214,7 +237,7 @@ func concTerm(d concDesc) string {
 
 func runRedisConc(c *corr.Ctx) error {
 	c.Meta("run_module", "RunRedisConc")
-	c.Meta("rule", "rounds against one gateway process started with the options main.go uses: (a) 2-8 connections x up to 25 INCR/DECR/INCRBY/DECRBY with non-zero deltas on one fresh key (absent or preset), all replies + final GET; (b) 2-8 connections issuing SET key <id> NX at the same instant on an absent key, all replies + final GET. A round stays under the hot-key write limit (128 writes / 2 s). non-trivial = at least two commands of the round overlapped in effect (some conflict error, or >= 2 acknowledged writers); distinct by Gallina term")
+	c.Meta("rule", "(1) controlled schedules executed on the real gateway (main() on an in-process listener, handlers parked at oracle.newCommitTs: one pick = one client's begin step or commit step): 28 directed schedules (two writers on one snapshot, racing SET NX, a slow transaction held open across two commits of the counter with a writer in flight, then finishing / followed by unrelated commits; key absent, preset, deleted or expired before the race) and random schedules of 2-5 clients x 1-3 commands (hot INCR/DECR/INCRBY or SET NX, private counters, unrelated SETs); acknowledged deltas, OKs, conflicts and final value compared with the model run on the same schedule. (2) stress rounds without the hot-key write limit: 8 hot INCR clients + 3 private-counter clients + 2 clients issuing 1500-key MGETs for 300 ms. (3) free-running rounds against one gateway process started with the options main.go uses, the key absent, deleted or expired before the race: (a) 2-8 connections x up to 25 INCR/DECR/INCRBY/DECRBY with non-zero deltas on one fresh key (absent or preset), all replies + final GET; (b) 2-8 connections issuing SET key <id> NX at the same instant on an absent key, all replies + final GET. A round stays under the hot-key write limit (128 writes / 2 s). non-trivial = at least two commands of the round overlapped in effect (some conflict error, or >= 2 acknowledged writers); distinct by Gallina term")
 	bin, err := buildGateway(c.Out)
 	if err != nil {
 		return err
@@ -224,6 +247,14 @@ func runRedisConc(c *corr.Ctx) error {
 		return err
 	}
 	defer g.stop()
+
+	emitSched := func(cs schedCase) {
+		c.Count("sched_" + cs.Gen)
+		c.Count("sched_base_" + cs.Base)
+		c.CountN("sched_conflicts", cs.Conflicts)
+		c.CountN("sched_steps", len(cs.Trace))
+		c.Emit(corr.Case{Coq: cs.term(), Nontrivial: cs.Conflicts > 0 || cs.OKs+int(cs.Acked) != 0, Desc: cs})
+	}
 
 	emit := func(d concDesc) {
 		c.Count("round_" + d.Kind)
@@ -249,8 +280,30 @@ func runRedisConc(c *corr.Ctx) error {
 		if err != nil {
 			return err
 		}
+		var sc *schedChild
+		defer func() { sc.stop() }()
 		for i, cs := range cases {
 			b, _ := json.Marshal(cs.Desc)
+			var probe struct {
+				Gen string `json:"gen"`
+			}
+			if json.Unmarshal(b, &probe) == nil && probe.Gen != "" {
+				// a controlled schedule is replayed exactly
+				var k schedCase
+				if err := json.Unmarshal(b, &k); err != nil {
+					return err
+				}
+				if sc == nil {
+					if sc, err = startSchedChild(bin, c.Out); err != nil {
+						return err
+					}
+				}
+				if err := sc.runCase(&k, fmt.Sprintf("r%d.%d", time.Now().UnixNano()%1000000, i)); err != nil {
+					return err
+				}
+				emitSched(k)
+				continue
+			}
 			var d concDesc
 			if err := json.Unmarshal(b, &d); err != nil {
 				return err
@@ -273,6 +326,49 @@ func runRedisConc(c *corr.Ctx) error {
 		return nil
 	}
 
+	// 1. controlled schedules on the real gateway (hook mode "sched")
+	sc, err := startSchedChild(bin, c.Out)
+	if err != nil {
+		return err
+	}
+	defer sc.stop()
+	ncase := 0
+	runSched := func(cs schedCase) error {
+		ncase++
+		if err := sc.runCase(&cs, fmt.Sprintf("%d.%d", c.Seed, ncase)); err != nil {
+			return err
+		}
+		emitSched(cs)
+		return nil
+	}
+	for _, cs := range directedSchedCases() {
+		if err := runSched(cs); err != nil {
+			return err
+		}
+	}
+	for i, n := 0, c.Scale(150, 6000); i < n; i++ {
+		if err := runSched(randomSchedCase(c.Rng)); err != nil {
+			return err
+		}
+	}
+
+	// 2. stress with long-lived readers, on a gateway without the hot-key write limit
+	gs, err := startGateway(bin, c.Out, "NOKV_VERIF_HOTLIMIT=0")
+	if err != nil {
+		return err
+	}
+	defer gs.stop()
+	pres := []string{"absent", "deleted", "value", "expired"}
+	for i, n := 0, c.Scale(8, 80); i < n; i++ {
+		d, err := stressRound(gs, fmt.Sprintf("%d.%d", c.Seed, i), pres[i%4], 8, 3, 2, 300*time.Millisecond)
+		if err != nil {
+			return err
+		}
+		c.Count("stress_round")
+		emit(d)
+	}
+
+	// 3. free-running rounds; the key is absent, deleted or expired before the race
 	rounds := c.Scale(40, 1500)
 	for i := 0; i < rounds; i++ {
 		conns := 2 + c.Rng.Intn(7)
@@ -281,6 +377,16 @@ func runRedisConc(c *corr.Ctx) error {
 		if c.Rng.Intn(2) == 0 {
 			v := []int64{0, 100, -5, 1 << 40}[c.Rng.Intn(4)]
 			init = &v
+		}
+		pre := pres[c.Rng.Intn(4)]
+		c.Count("round_pre_" + pre)
+		if init == nil {
+			if err := prepKey(g, fmt.Sprintf("ctr%d.%d", c.Seed, i), pre); err != nil {
+				return err
+			}
+		}
+		if err := prepKey(g, fmt.Sprintf("nx%d.%d", c.Seed, i), pre); err != nil {
+			return err
 		}
 		d, err := incrRound(g, fmt.Sprintf("ctr%d.%d", c.Seed, i), conns, per, init, c.Rng.Int63n(1000))
 		if err != nil {
